@@ -399,7 +399,9 @@ KEY_STYLES = {
                  "ключ_поля", "dataЖ", "Жdata", "x名前", "café_au_lait",
                  "cafe\u0301", "prix-cafe\u0301", "A\u030angstrom", "\u212aelvin", "\u2126hm", "nai\u0308ve", "e\u0301te\u0301",
                  # supplementary-plane characters that are not printable: tag characters, plane-15 private use, format controls
-                 "tag\U000e0067x", "pua\U000f0000", "fmt\U0001d173z", "flag\U0001f3f4\U000e0067\U000e007f", "emoji😀key"],
+                 "tag\U000e0067x", "pua\U000f0000", "fmt\U0001d173z", "flag\U0001f3f4\U000e0067\U000e007f", "emoji😀key",
+                 # unpaired surrogates (valid JSON: "half\\ud83d")
+                 "half\ud83d", "x\udc00y"],
     "plural": ["items", "item", "children", "child", "data", "datum", "status", "statuses", "address", "addresses", "series",
                "news", "person", "people", "men", "man", "indices", "index", "boxes", "box"],
 }
